@@ -108,6 +108,11 @@ func specAttrDefs(spec *TableSpec) *attrDefs {
 		a.add(ix.Hash, ix.HashT)
 		a.add(ix.Range, ix.RangeT)
 	}
+	for _, el := range spec.RawKeySchema {
+		if _, ok := a.typ[el[0]]; !ok {
+			a.add(el[0], "S")
+		}
+	}
 	return a
 }
 
@@ -116,6 +121,12 @@ func V1CreateInput(spec *TableSpec) *v1ddb.CreateTableInput { return v1CreateInp
 
 func v1CreateInput(spec *TableSpec) *v1ddb.CreateTableInput {
 	in := &v1ddb.CreateTableInput{TableName: aws.String(spec.Name), KeySchema: v1KeySchema(spec.Hash, spec.Range)}
+	if spec.RawKeySchema != nil {
+		in.KeySchema = nil
+		for _, el := range spec.RawKeySchema {
+			in.KeySchema = append(in.KeySchema, &v1ddb.KeySchemaElement{AttributeName: aws.String(el[0]), KeyType: aws.String(el[1])})
+		}
+	}
 	ad := specAttrDefs(spec)
 	for _, n := range ad.order {
 		in.AttributeDefinitions = append(in.AttributeDefinitions, &v1ddb.AttributeDefinition{AttributeName: aws.String(n), AttributeType: aws.String(ad.typ[n])})
